@@ -170,6 +170,7 @@ pub struct Sim<'a> {
     pub cut_on: Vec<String>,
     pub cut: Option<String>,
     truncated: bool,
+    split_brain_seen: bool,
     term_at_end_of_faults: u64,
     dyn_events: Vec<Ev>,
     /// per follower: consecutive LogMismatch answers to Appends without any change of its log state
@@ -227,6 +228,7 @@ impl<'a> Sim<'a> {
             cut_on: vec![],
             cut: None,
             truncated: false,
+            split_brain_seen: false,
             term_at_end_of_faults: 0,
             dyn_events: vec![],
             mismatch_streak: vec![(0, (0, 0, 0)); n as usize],
@@ -518,6 +520,14 @@ impl<'a> Sim<'a> {
                         new_events.push(Ev::Heal { at_ms: at + rng.range(300, 6000) });
                     }
                 }
+                2 => {
+                    // split brain: both leaders get an append, then the partition heals
+                    if rng.below(100) < adapt[0].max(40) {
+                        *next_data += 1;
+                        new_events.push(Ev::Append { at_ms: now_ms + rng.range(1, 300), node, data: *next_data });
+                        new_events.push(Ev::Heal { at_ms: now_ms + rng.range(50, 2500) });
+                    }
+                }
                 _ => {
                     // a client append has just been accepted
                     if rng.below(100) < adapt[2] {
@@ -706,6 +716,17 @@ impl<'a> Sim<'a> {
                 }
             }
             self.was_leader[i] = is_leader;
+        }
+        // recording pass: when two nodes believe they lead at the same time, offer both a client append
+        // and let the network heal soon after (split-brain is where committed entries can diverge)
+        let leaders: Vec<u64> = (0..n as u64).filter(|i| self.nodes[*i as usize].verif_is_leader()).collect();
+        if leaders.len() >= 2 && !self.split_brain_seen {
+            self.split_brain_seen = true;
+            for l in leaders {
+                self.adapt(2, l);
+            }
+        } else if leaders.len() < 2 {
+            self.split_brain_seen = false;
         }
     }
 
